@@ -5,6 +5,7 @@ import (
 	"runtime"
 	"sort"
 	"strings"
+	"time"
 
 	"github.com/ohler55/slip"
 )
@@ -35,10 +36,44 @@ func leakProbe(via string, n int) string {
 	var m0, m1 runtime.MemStats
 	runtime.GC()
 	runtime.ReadMemStats(&m0)
+	t0 := time.Now()
 	for i := 0; i < n; i++ {
 		execA("A|" + via + "|1|d|1|dn|1|v,v,k1,v,zz,v")
 	}
+	el := time.Since(t0)
 	runtime.GC()
 	runtime.ReadMemStats(&m1)
-	return fmt.Sprintf("%s: %d bytes/case live", via, (int64(m1.HeapAlloc)-int64(m0.HeapAlloc))/int64(n))
+	return fmt.Sprintf("%s: %d bytes/case live, %d us/case", via, (int64(m1.HeapAlloc)-int64(m0.HeapAlloc))/int64(n), el.Microseconds()/int64(n))
+}
+
+// countFamilies lists the number of cases per family and route (dev aid, spec "count:<tier>").
+func countFamilies(tier string) string {
+	b := boundsFor(tier)
+	var lines []string
+	for _, fam := range families(b) {
+		per := map[string]int{}
+		total := 0
+		fam.each(func(via string, sh *shape, args string) {
+			base, env := splitVia(via)
+			if strings.HasPrefix(base, "spread.") {
+				base = "spread"
+			}
+			if env != "" {
+				base += "@" + env
+			}
+			per[base]++
+			total++
+		})
+		var ks []string
+		for k := range per {
+			ks = append(ks, k)
+		}
+		sort.Strings(ks)
+		var p []string
+		for _, k := range ks {
+			p = append(p, fmt.Sprintf("%s=%d", k, per[k]))
+		}
+		lines = append(lines, fmt.Sprintf("%s: shapes=%d total=%d  %s", fam.name, len(fam.shapes), total, strings.Join(p, " ")))
+	}
+	return strings.Join(lines, "\n")
 }
